@@ -59,6 +59,8 @@ type app struct {
 	SndBuf       int   `json:"sndbuf"`
 	ISS          []int `json:"iss"`           // [hi, lo] for the active opener (side a) via hook H4
 	ShutAfterMS  int   `json:"shut_after_ms"` // delay before shutdown
+	RcvBuf2      int   `json:"rcvbuf2"`       // the application changes its receive buffer size to this ...
+	RcvBuf2MS    int   `json:"rcvbuf2_ms"`    // ... this long after the connection came up
 	NoRead       bool  `json:"noread"`
 }
 
@@ -744,7 +746,8 @@ func runPair(sc scenario) []M {
 	go p.deliver(0, p.b, sc.A2B, sc.Seed*7+1)
 	go p.deliver(1, p.a, sc.B2A, sc.Seed*7+2)
 	rs := M{"ev": "reset", "tag": sc.Tag, "mtu": int(mtu), "mtu_b": int(mtuB), "v": sc.V, "sack": sc.SACK, "cc": sc.CC,
-		"rcvbuf_a": sc.A.RcvBuf, "rcvbuf_b": sc.B.RcvBuf, "seed": int(sc.Seed), "sync": sc.Sync, "procev": sc.Sync}
+		// (the largest receive buffer the application ever configures: the spec's "edge within the buffer" bound refers to it)
+		"rcvbuf_a": maxInt(sc.A.RcvBuf, sc.A.RcvBuf2), "rcvbuf_b": maxInt(sc.B.RcvBuf, sc.B.RcvBuf2), "seed": int(sc.Seed), "sync": sc.Sync, "procev": sc.Sync}
 	for k, v := range sc.Flags {
 		rs[k] = v
 	}
@@ -877,6 +880,20 @@ func runPair(sc scenario) []M {
 	}
 	go closer(p.a, &wa)
 	go closer(p.b, &wb)
+	for _, s := range []*side{p.a, p.b} {
+		if s.cfg.RcvBuf2 > 0 {
+			s := s
+			go func() {
+				select {
+				case <-time.After(time.Duration(s.cfg.RcvBuf2MS) * time.Millisecond):
+				case <-p.done:
+					return
+				}
+				err := s.ep.SetSockOpt(tcpip.ReceiveBufferSizeOption(s.cfg.RcvBuf2))
+				lg.add(M{"ev": "note", "why": "rcvbuf changed", "e": s.name, "to": s.cfg.RcvBuf2, "err": errS(err)})
+			}()
+		}
+	}
 	appsDone := make(chan struct{})
 	go func() { wg.Wait(); close(appsDone) }()
 	// quiescence monitor: wire empty, both protocol goroutines idle, no timer armed, stable -> a state, not a timeout
@@ -972,4 +989,11 @@ func main() {
 	default:
 		vh.Fatal("unknown mode %s", os.Args[1])
 	}
+}
+
+func maxInt(a, b int) int {
+	if a > b {
+		return a
+	}
+	return b
 }
